@@ -3,6 +3,17 @@ import Tengo.Proofs.C02CompileLayout
 /-!
 C02 / `compile_verifies`, pure block layer: the abstract stack discipline (`Verifier.succs`) of
 instruction blocks, independent of the compiler monad.
+
+* `Core lo hi a b H B T`: block `B` on `[lo, hi)` entered at height `a`, left at height `b`, every
+  instruction consistent with the height function `H`; jumps stay inside the block (instruction
+  starts or its end) except to the open targets `T`. `Core.seq` (composition), `Core.single`,
+  `Core.fwd` / `Core.ifelse` / `Core.loopC` / `Core.loopN` (the jump structures the compiler emits),
+  `Core.close`.
+* `EBlk lo hi a B`: the code of an expression (height `a` to `a + 1`, closed, no POP / RET, a final
+  CALL sits at `a + args + 1`); `Seq`: closed straight-line compositions.
+* `SBlk lo hi B bs cs`: the code of a statement (height 0 to 0) with pending `break` / `continue`
+  jumps at `bs` / `cs`, for every final target (`P2`); shapes `exprStmt`, `ofSeq` (assignments),
+  `ret0/ret1`, `brk/cont`, `if1`, `ifelse`, `loopC`, `loopN`, `append`.
 -/
 set_option linter.unusedVariables false
 set_option linter.unusedSimpArgs false
@@ -563,5 +574,538 @@ theorem EBlk.cond {lo m n hi a : Nat} {Bc Bt Bf : List Instr} (hc : EBlk lo m a 
         · rcases List.mem_cons.mp hm with rfl | hm
           · exact absurd hxo jmp_facts.1
           · rw [hHf x hm]; exact hlf x hm hxe hxo
+
+/-! ### statement blocks -/
+
+/-- The final operands of pending jumps: positions `cs` (`continue`) get `tc`, positions `bs`
+(`break`) get `tb`; `cs` wins, as `patchAll breaks` runs before `patchAll continues`. -/
+def patch2 (bs : List Nat) (tb : Nat) (cs : List Nat) (tc : Nat) (i : Instr) : Instr :=
+  if i.pos ∈ cs then { i with args := [tc] } else if i.pos ∈ bs then { i with args := [tb] } else i
+
+def P2 (bs : List Nat) (tb : Nat) (cs : List Nat) (tc : Nat) (B : List Instr) : List Instr :=
+  B.map (patch2 bs tb cs tc)
+
+@[simp] theorem patch2_pos (bs : List Nat) (tb : Nat) (cs : List Nat) (tc : Nat) (i : Instr) :
+    (patch2 bs tb cs tc i).pos = i.pos := by
+  unfold patch2; split
+  · rfl
+  · split <;> rfl
+@[simp] theorem patch2_op (bs : List Nat) (tb : Nat) (cs : List Nat) (tc : Nat) (i : Instr) :
+    (patch2 bs tb cs tc i).op = i.op := by
+  unfold patch2; split
+  · rfl
+  · split <;> rfl
+@[simp] theorem patch2_size (bs : List Nat) (tb : Nat) (cs : List Nat) (tc : Nat) (i : Instr) :
+    (patch2 bs tb cs tc i).size = i.size := by simp [Instr.size]
+
+theorem patch2_id {bs cs : List Nat} {tb tc : Nat} {i : Instr} (h1 : i.pos ∉ bs) (h2 : i.pos ∉ cs) :
+    patch2 bs tb cs tc i = i := by simp [patch2, h1, h2]
+
+theorem P2_id {bs cs : List Nat} {tb tc : Nat} {B : List Instr} (h : ∀ i ∈ B, i.pos ∉ bs ∧ i.pos ∉ cs) :
+    P2 bs tb cs tc B = B := by
+  unfold P2
+  conv => rhs; rw [← List.map_id B]
+  exact List.map_congr_left (fun i hi => patch2_id (h i hi).1 (h i hi).2)
+
+@[simp] theorem P2_nil (tb tc : Nat) (B : List Instr) : P2 [] tb [] tc B = B :=
+  P2_id (fun _ _ => ⟨by simp, by simp⟩)
+
+theorem P2_append (bs : List Nat) (tb : Nat) (cs : List Nat) (tc : Nat) (B₁ B₂ : List Instr) :
+    P2 bs tb cs tc (B₁ ++ B₂) = P2 bs tb cs tc B₁ ++ P2 bs tb cs tc B₂ := by simp [P2]
+
+theorem P2_congr {bs bs' cs cs' : List Nat} {tb tc : Nat} {B : List Instr}
+    (h : ∀ i ∈ B, (i.pos ∈ bs ↔ i.pos ∈ bs') ∧ (i.pos ∈ cs ↔ i.pos ∈ cs')) :
+    P2 bs tb cs tc B = P2 bs' tb cs' tc B := by
+  unfold P2
+  refine List.map_congr_left (fun i hi => ?_)
+  obtain ⟨h1, h2⟩ := h i hi
+  unfold patch2
+  by_cases hc : i.pos ∈ cs
+  · rw [if_pos hc, if_pos (h2.mp hc)]
+  · rw [if_neg hc, if_neg (fun h => hc (h2.mpr h))]
+    by_cases hb : i.pos ∈ bs
+    · rw [if_pos hb, if_pos (h1.mp hb)]
+    · rw [if_neg hb, if_neg (fun h => hb (h1.mpr h))]
+
+theorem totalSize_P2 (bs : List Nat) (tb : Nat) (cs : List Nat) (tc : Nat) (B : List Instr) :
+    totalSize (P2 bs tb cs tc B) = totalSize B := by
+  induction B with
+  | nil => rfl
+  | cons a B ih => simp only [P2, List.map_cons, totalSize_cons, patch2_size] at ih ⊢; rw [ih]
+
+theorem mem_P2 {bs cs : List Nat} {tb tc : Nat} {B : List Instr} {x : Instr} (h : x ∈ P2 bs tb cs tc B) :
+    ∃ x0 ∈ B, x = patch2 bs tb cs tc x0 := by
+  obtain ⟨x0, h0, rfl⟩ := List.mem_map.mp h
+  exact ⟨x0, h0, rfl⟩
+
+/-- open targets of a statement: where its pending `break` / `continue` jumps will go (height 0) -/
+def OT (bs cs : List Nat) (tb tc : Nat) : Nat → Nat → Prop :=
+  fun p k => ((p = tb ∧ bs ≠ []) ∨ (p = tc ∧ cs ≠ [])) ∧ k = 0
+
+theorem OT.mono {bs cs bs' cs' : List Nat} {tb tc : Nat} (hb : bs ≠ [] → bs' ≠ []) (hc : cs ≠ [] → cs' ≠ []) :
+    ∀ p k, OT bs cs tb tc p k → OT bs' cs' tb tc p k := by
+  intro p k h
+  obtain ⟨h1, h2⟩ := h
+  refine ⟨?_, h2⟩
+  rcases h1 with ⟨e, h⟩ | ⟨e, h⟩
+  · exact Or.inl ⟨e, hb h⟩
+  · exact Or.inr ⟨e, hc h⟩
+
+theorem append_ne_nil_left {α : Type} {a b : List α} (h : a ≠ []) : a ++ b ≠ [] := by
+  cases a with
+  | nil => exact absurd rfl h
+  | cons x xs => simp
+
+theorem append_ne_nil_right {α : Type} {a b : List α} (h : b ≠ []) : a ++ b ≠ [] := by
+  cases b with
+  | nil => exact absurd rfl h
+  | cons x xs => simp
+
+/-- The code of a statement: entered and left at height 0, closed except for the pending
+`break` (`bs`) / `continue` (`cs`) jumps of the enclosing loop — for whatever targets they are
+finally patched to — and not ending in a CALL. -/
+structure SBlk (lo hi : Nat) (B : List Instr) (bs cs : List Nat) : Prop where
+  pend : ∀ p, p ∈ bs ∨ p ∈ cs → ∃ i ∈ B, i.pos = p ∧ i.op = opJump
+  core : ∀ tb tc, ∃ H, Core lo hi 0 0 H (P2 bs tb cs tc B) (OT bs cs tb tc)
+  nce : ∀ x ∈ B, x.pos + x.size = hi → x.op ≠ opCall
+  lay : Layout lo B
+  hi_eq : hi = lo + totalSize B
+
+theorem SBlk.pend_range {lo hi : Nat} {B : List Instr} {bs cs : List Nat} (h : SBlk lo hi B bs cs)
+    {p : Nat} (hp : p ∈ bs ∨ p ∈ cs) : lo ≤ p ∧ p < hi := by
+  obtain ⟨i, hi', rfl, _⟩ := h.pend p hp
+  have := mem_range h.lay hi'
+  have := h.hi_eq
+  omega
+
+theorem SBlk.ofClosed {lo hi : Nat} {H : Nat → Nat} {B : List Instr} (hc : Core lo hi 0 0 H B NoT)
+    (hn : ∀ x ∈ B, x.pos + x.size = hi → x.op ≠ opCall) : SBlk lo hi B [] [] := by
+  refine ⟨?_, ?_, hn, hc.lay, hc.hi_eq⟩
+  · intro p hp
+    rcases hp with h | h <;> cases h
+  · intro tb tc
+    exact ⟨H, by rw [P2_nil]; exact hc.mono (fun _ _ h => h.elim)⟩
+
+theorem SBlk.nil (lo : Nat) : SBlk lo lo [] [] [] :=
+  SBlk.ofClosed (Core.nil lo 0 NoT) (fun _ h => by cases h)
+
+theorem SBlk.append {lo m hi : Nat} {B₁ B₂ : List Instr} {bs₁ cs₁ bs₂ cs₂ : List Nat}
+    (h1 : SBlk lo m B₁ bs₁ cs₁) (h2 : SBlk m hi B₂ bs₂ cs₂) :
+    SBlk lo hi (B₁ ++ B₂) (bs₁ ++ bs₂) (cs₁ ++ cs₂) := by
+  have hlm := h1.hi_eq
+  have hmh := h2.hi_eq
+  refine ⟨?_, ?_, ?_, ?_, ?_⟩
+  · intro p hp
+    have : (p ∈ bs₁ ∨ p ∈ cs₁) ∨ (p ∈ bs₂ ∨ p ∈ cs₂) := by
+      simp only [List.mem_append] at hp
+      rcases hp with (h | h) | (h | h)
+      · exact Or.inl (Or.inl h)
+      · exact Or.inr (Or.inl h)
+      · exact Or.inl (Or.inr h)
+      · exact Or.inr (Or.inr h)
+    rcases this with h | h
+    · obtain ⟨i, hi', e1, e2⟩ := h1.pend p h
+      exact ⟨i, List.mem_append_left _ hi', e1, e2⟩
+    · obtain ⟨i, hi', e1, e2⟩ := h2.pend p h
+      exact ⟨i, List.mem_append_right _ hi', e1, e2⟩
+  · intro tb tc
+    obtain ⟨H₁, hc1⟩ := h1.core tb tc
+    obtain ⟨H₂, hc2⟩ := h2.core tb tc
+    have e1 : P2 (bs₁ ++ bs₂) tb (cs₁ ++ cs₂) tc B₁ = P2 bs₁ tb cs₁ tc B₁ := by
+      refine P2_congr (fun i hi' => ?_)
+      have hr := mem_range h1.lay hi'
+      simp only [List.mem_append]
+      refine ⟨⟨fun h => h.elim id (fun h => ?_), Or.inl⟩, ⟨fun h => h.elim id (fun h => ?_), Or.inl⟩⟩
+      · have := h2.pend_range (Or.inl h); omega
+      · have := h2.pend_range (Or.inr h); omega
+    have e2 : P2 (bs₁ ++ bs₂) tb (cs₁ ++ cs₂) tc B₂ = P2 bs₂ tb cs₂ tc B₂ := by
+      refine P2_congr (fun i hi' => ?_)
+      have hr := mem_range h2.lay hi'
+      simp only [List.mem_append]
+      refine ⟨⟨fun h => h.elim (fun h => ?_) id, Or.inr⟩, ⟨fun h => h.elim (fun h => ?_) id, Or.inr⟩⟩
+      · have := h1.pend_range (Or.inl h); omega
+      · have := h1.pend_range (Or.inr h); omega
+    rw [P2_append, e1, e2]
+    have hc1 := hc1.mono (OT.mono (bs' := bs₁ ++ bs₂) (cs' := cs₁ ++ cs₂) append_ne_nil_left append_ne_nil_left)
+    have hc2 := hc2.mono (OT.mono (bs' := bs₁ ++ bs₂) (cs' := cs₁ ++ cs₂) append_ne_nil_right append_ne_nil_right)
+    refine ⟨_, hc1.seq hc2 ?_⟩
+    intro x hx hxe hxo
+    obtain ⟨x0, hx0, rfl⟩ := mem_P2 hx
+    simp only [patch2_pos, patch2_size, patch2_op] at hxe hxo
+    exact absurd hxo (h1.nce x0 hx0 hxe)
+  · intro x hx hxe
+    rcases List.mem_append.mp hx with hm | hm
+    · by_cases hne : B₂ = []
+      · subst hne
+        simp only [totalSize_nil, Nat.add_zero] at hmh
+        exact h1.nce x hm (by omega)
+      · have := mem_range h1.lay hm
+        have := totalSize_pos hne
+        omega
+    · exact h2.nce x hm hxe
+  · exact layout_append h1.lay (by rw [← hlm]; exact h2.lay)
+  · rw [totalSize_append]; omega
+
+theorem pop_ne_call : opPop ≠ opCall := by decide
+theorem ret_ne_call : opReturn ≠ opCall := by decide
+theorem pop_effect (p : Nat) : stackEffect ⟨p, opPop, []⟩ = some (1, 0) := rfl
+
+/-- Expression statement: `e; POP`. -/
+theorem SBlk.exprStmt {lo m : Nat} {B : List Instr} (h : EBlk lo m 0 B) :
+    SBlk lo (m + 1) (B ++ [⟨m, opPop, []⟩]) [] [] := by
+  obtain ⟨H, hc, hn, hl⟩ := h
+  obtain ⟨H₂, hc2⟩ := Core.straight (i := ⟨m, opPop, []⟩) (a := 0 + 1) NoT rfl (pop_effect m) (by omega) (by omega)
+  have hsz : (Instr.mk m opPop []).size = 1 := rfl
+  rw [hsz] at hc2
+  refine SBlk.ofClosed (hc.seq hc2 ?_) ?_
+  · intro x hx hxe hxo y _ _ _
+    have := hl x hx hxe hxo
+    omega
+  · intro x hx hxe
+    rcases List.mem_append.mp hx with hm | hm
+    · have := mem_range hc.lay hm; have := hc.hi_eq; omega
+    · simp only [List.mem_singleton] at hm; subst hm; exact pop_ne_call
+
+/-- A closed prefix and a final instruction that consumes everything above the base (assignments). -/
+theorem SBlk.ofSeq {lo m c : Nat} {B : List Instr} {i : Instr} (h : Seq lo m 0 c B)
+    (hp : i.pos = m) (he : stackEffect i = some (c, 0)) (hn : i.op ≠ opPop) :
+    SBlk lo (m + i.size) (B ++ [i]) [] [] := by
+  obtain ⟨H, hc, hnpr⟩ := h
+  obtain ⟨H₂, hc2⟩ := Core.straight (pushes := 0) NoT hp he (Nat.le_refl c) (by omega)
+  have e : c - c + 0 = 0 := by omega
+  rw [e] at hc2
+  refine SBlk.ofClosed (hc.seq hc2 ?_) ?_
+  · intro x _ _ _ y hy _ hpr
+    simp only [List.mem_singleton] at hy; subst hy
+    exact absurd hpr (not_isPR_of hn (stackEffect_not_return he))
+  · intro x hx hxe hxo
+    rcases List.mem_append.mp hx with hm | hm
+    · have := mem_range hc.lay hm; have := hc.hi_eq; have := size_pos i; omega
+    · simp only [List.mem_singleton] at hm; subst hm
+      rw [stackEffect_call hxo] at he
+      injection he with he; injection he with _ he; cases he
+
+theorem SBlk.ret0 (lo : Nat) : SBlk lo (lo + 2) [⟨lo, opReturn, [0]⟩] [] [] := by
+  have hc := Core.single (i := ⟨lo, opReturn, [0]⟩) (a := 0) (b := 0) (T := NoT) rfl
+    (succs_return rfl (by simp)) (fun q h => by cases h) (by omega)
+  have hsz : (Instr.mk lo opReturn [0]).size = 2 := rfl
+  rw [hsz] at hc
+  refine SBlk.ofClosed hc ?_
+  intro x hx _
+  simp only [List.mem_singleton] at hx; subst hx; exact ret_ne_call
+
+theorem SBlk.ret1 {lo m : Nat} {B : List Instr} (h : EBlk lo m 0 B) :
+    SBlk lo (m + 2) (B ++ [⟨m, opReturn, [1]⟩]) [] [] := by
+  obtain ⟨H, hc, hn, hl⟩ := h
+  have hc2 := Core.single (i := ⟨m, opReturn, [1]⟩) (a := 0 + 1) (b := 0) (T := NoT) rfl
+    (succs_return rfl (by simp)) (fun q h => by cases h) (by omega)
+  have hsz : (Instr.mk m opReturn [1]).size = 2 := rfl
+  rw [hsz] at hc2
+  refine SBlk.ofClosed (hc.seq hc2 ?_) ?_
+  · intro x hx hxe hxo y _ _ _
+    have := hl x hx hxe hxo
+    omega
+  · intro x hx hxe
+    rcases List.mem_append.mp hx with hm | hm
+    · have := mem_range hc.lay hm; have := hc.hi_eq; omega
+    · simp only [List.mem_singleton] at hm; subst hm; exact ret_ne_call
+
+/-- `break`: a pending jump. -/
+theorem SBlk.brk (lo x : Nat) : SBlk lo (lo + 5) [⟨lo, opJump, [x]⟩] [lo] [] := by
+  refine ⟨?_, ?_, ?_, ⟨rfl, trivial⟩, rfl⟩
+  · intro p hp
+    rcases hp with h | h
+    · simp only [List.mem_singleton] at h; subst h
+      exact ⟨_, List.mem_singleton.mpr rfl, rfl, rfl⟩
+    · cases h
+  · intro tb tc
+    have e : P2 [lo] tb [] tc [⟨lo, opJump, [x]⟩] = [⟨lo, opJump, [tb]⟩] := by simp [P2, patch2]
+    rw [e]
+    have hc := Core.single (i := ⟨lo, opJump, [tb]⟩) (a := 0) (b := 0) (T := OT [lo] [] tb tc) rfl
+      (succs_jump rfl 0) (fun q h => by
+        simp only [List.mem_singleton] at h; subst h
+        exact Or.inr ⟨Or.inl ⟨rfl, by simp⟩, rfl⟩) (by omega)
+    exact ⟨_, hc⟩
+  · intro y hy _
+    simp only [List.mem_singleton] at hy; subst hy; exact jmp_facts.1
+
+/-- `continue`: a pending jump. -/
+theorem SBlk.cont (lo x : Nat) : SBlk lo (lo + 5) [⟨lo, opJump, [x]⟩] [] [lo] := by
+  refine ⟨?_, ?_, ?_, ⟨rfl, trivial⟩, rfl⟩
+  · intro p hp
+    rcases hp with h | h
+    · cases h
+    · simp only [List.mem_singleton] at h; subst h
+      exact ⟨_, List.mem_singleton.mpr rfl, rfl, rfl⟩
+  · intro tb tc
+    have e : P2 [] tb [lo] tc [⟨lo, opJump, [x]⟩] = [⟨lo, opJump, [tc]⟩] := by simp [P2, patch2]
+    rw [e]
+    have hc := Core.single (i := ⟨lo, opJump, [tc]⟩) (a := 0) (b := 0) (T := OT [] [lo] tb tc) rfl
+      (succs_jump rfl 0) (fun q h => by
+        simp only [List.mem_singleton] at h; subst h
+        exact Or.inr ⟨Or.inr ⟨rfl, by simp⟩, rfl⟩) (by omega)
+    exact ⟨_, hc⟩
+  · intro y hy _
+    simp only [List.mem_singleton] at hy; subst hy; exact jmp_facts.1
+
+theorem layout_P2 (bs : List Nat) (tb : Nat) (cs : List Nat) (tc : Nat) :
+    ∀ {lo : Nat} {B : List Instr}, Layout lo (P2 bs tb cs tc B) ↔ Layout lo B
+  | _, [] => Iff.rfl
+  | lo, a :: B => by
+    simp only [P2, List.map_cons, Layout, patch2_pos, patch2_size]
+    exact and_congr Iff.rfl (layout_P2 bs tb cs tc (B := B))
+
+theorem SBlk.mk' {lo hi : Nat} {B : List Instr} {bs cs : List Nat}
+    (pend : ∀ p, p ∈ bs ∨ p ∈ cs → ∃ i ∈ B, i.pos = p ∧ i.op = opJump)
+    (core : ∀ tb tc, ∃ H, Core lo hi 0 0 H (P2 bs tb cs tc B) (OT bs cs tb tc))
+    (nce : ∀ x ∈ B, x.pos + x.size = hi → x.op ≠ opCall) : SBlk lo hi B bs cs := by
+  obtain ⟨H, hc⟩ := core 0 0
+  exact ⟨pend, core, nce, (layout_P2 _ _ _ _).mp hc.lay, by rw [← totalSize_P2 bs 0 cs 0 B]; exact hc.hi_eq⟩
+
+theorem jmpf_size (p : Nat) (args : List Nat) : (Instr.mk p opJumpFalsy args).size = 5 := rfl
+theorem jmp_size (p : Nat) (args : List Nat) : (Instr.mk p opJump args).size = 5 := rfl
+
+/-- `if c { body }`. -/
+theorem SBlk.if1 {lo m hi : Nat} {C Bd : List Instr} {bs cs : List Nat} (hC : EBlk lo m 0 C)
+    (hd : SBlk (m + 5) hi Bd bs cs) : SBlk lo hi (C ++ ⟨m, opJumpFalsy, [hi]⟩ :: Bd) bs cs := by
+  obtain ⟨Hc, hcc, _, _⟩ := hC
+  have hce := hcc.hi_eq
+  refine SBlk.mk' ?_ ?_ ?_
+  · intro p hp
+    obtain ⟨i, hi', e1, e2⟩ := hd.pend p hp
+    exact ⟨i, List.mem_append_right _ (List.mem_cons_of_mem _ hi'), e1, e2⟩
+  · intro tb tc
+    obtain ⟨Hd, hcd⟩ := hd.core tb tc
+    have e : P2 bs tb cs tc (C ++ ⟨m, opJumpFalsy, [hi]⟩ :: Bd) =
+        C ++ ⟨m, opJumpFalsy, [hi]⟩ :: P2 bs tb cs tc Bd := by
+      have e1 : patch2 bs tb cs tc ⟨m, opJumpFalsy, [hi]⟩ = ⟨m, opJumpFalsy, [hi]⟩ :=
+        patch2_id (fun h => by have := hd.pend_range (p := m) (Or.inl h); omega)
+          (fun h => by have := hd.pend_range (p := m) (Or.inr h); omega)
+      rw [P2_append, P2_id (B := C)]
+      · simp only [P2, List.map_cons, e1]
+      · intro i hi'
+        have := mem_range hcc.lay hi'
+        exact ⟨fun h => by have := hd.pend_range (Or.inl h); omega,
+          fun h => by have := hd.pend_range (Or.inr h); omega⟩
+    rw [e]
+    obtain ⟨H, hc, _, _⟩ := Core.fwd (j := ⟨m, opJumpFalsy, [hi]⟩) (hcc.mono (fun _ _ h => h.elim)) hcd rfl rfl
+      (succs_jumpFalsy rfl (by omega)) jmpf_facts.1 (not_isPR_of jmpf_facts.2.1 jmpf_facts.2.2) (by omega)
+    exact ⟨H, hc⟩
+  · intro x hx hxe
+    have := hd.hi_eq
+    rcases List.mem_append.mp hx with hm | hm
+    · have := mem_range hcc.lay hm; omega
+    · rcases List.mem_cons.mp hm with rfl | hm
+      · exact jmpf_facts.1
+      · exact hd.nce x hm hxe
+
+/-- `if c { body } else …`. -/
+theorem SBlk.ifelse {lo m n hi : Nat} {C Bd Be : List Instr} {bs₁ cs₁ bs₂ cs₂ : List Nat} (hC : EBlk lo m 0 C)
+    (hd : SBlk (m + 5) n Bd bs₁ cs₁) (he : SBlk (n + 5) hi Be bs₂ cs₂) :
+    SBlk lo hi (C ++ ⟨m, opJumpFalsy, [n + 5]⟩ :: (Bd ++ ⟨n, opJump, [hi]⟩ :: Be)) (bs₁ ++ bs₂) (cs₁ ++ cs₂) := by
+  obtain ⟨Hc, hcc, _, _⟩ := hC
+  have hce := hcc.hi_eq
+  have hde := hd.hi_eq
+  have hee := he.hi_eq
+  have hr1 : ∀ p, p ∈ bs₁ ++ bs₂ ∨ p ∈ cs₁ ++ cs₂ → (m + 5 ≤ p ∧ p < n) ∨ (n + 5 ≤ p ∧ p < hi) := by
+    intro p hp
+    simp only [List.mem_append] at hp
+    rcases hp with (h | h) | (h | h)
+    · exact Or.inl (hd.pend_range (Or.inl h))
+    · exact Or.inr (he.pend_range (Or.inl h))
+    · exact Or.inl (hd.pend_range (Or.inr h))
+    · exact Or.inr (he.pend_range (Or.inr h))
+  refine SBlk.mk' ?_ ?_ ?_
+  · intro p hp
+    simp only [List.mem_append] at hp
+    have : (p ∈ bs₁ ∨ p ∈ cs₁) ∨ (p ∈ bs₂ ∨ p ∈ cs₂) := by
+      rcases hp with (h | h) | (h | h)
+      · exact Or.inl (Or.inl h)
+      · exact Or.inr (Or.inl h)
+      · exact Or.inl (Or.inr h)
+      · exact Or.inr (Or.inr h)
+    rcases this with h | h
+    · obtain ⟨i, hi', e1, e2⟩ := hd.pend p h
+      exact ⟨i, by simp [hi'], e1, e2⟩
+    · obtain ⟨i, hi', e1, e2⟩ := he.pend p h
+      exact ⟨i, by simp [hi'], e1, e2⟩
+  · intro tb tc
+    obtain ⟨Hd, hcd⟩ := hd.core tb tc
+    obtain ⟨He, hcee⟩ := he.core tb tc
+    have e : P2 (bs₁ ++ bs₂) tb (cs₁ ++ cs₂) tc (C ++ ⟨m, opJumpFalsy, [n + 5]⟩ :: (Bd ++ ⟨n, opJump, [hi]⟩ :: Be)) =
+        C ++ ⟨m, opJumpFalsy, [n + 5]⟩ :: (P2 bs₁ tb cs₁ tc Bd ++ ⟨n, opJump, [hi]⟩ :: P2 bs₂ tb cs₂ tc Be) := by
+      have eC : P2 (bs₁ ++ bs₂) tb (cs₁ ++ cs₂) tc C = C := by
+        refine P2_id (fun i hi' => ?_)
+        have := mem_range hcc.lay hi'
+        exact ⟨fun h => by have := hr1 _ (Or.inl h); omega, fun h => by have := hr1 _ (Or.inr h); omega⟩
+      have eD : P2 (bs₁ ++ bs₂) tb (cs₁ ++ cs₂) tc Bd = P2 bs₁ tb cs₁ tc Bd := by
+        refine P2_congr (fun i hi' => ?_)
+        have hr := mem_range hd.lay hi'
+        simp only [List.mem_append]
+        refine ⟨⟨fun h => h.elim id (fun h => ?_), Or.inl⟩, ⟨fun h => h.elim id (fun h => ?_), Or.inl⟩⟩
+        · have := he.pend_range (Or.inl h); omega
+        · have := he.pend_range (Or.inr h); omega
+      have eE : P2 (bs₁ ++ bs₂) tb (cs₁ ++ cs₂) tc Be = P2 bs₂ tb cs₂ tc Be := by
+        refine P2_congr (fun i hi' => ?_)
+        have hr := mem_range he.lay hi'
+        simp only [List.mem_append]
+        refine ⟨⟨fun h => h.elim (fun h => ?_) id, Or.inr⟩, ⟨fun h => h.elim (fun h => ?_) id, Or.inr⟩⟩
+        · have := hd.pend_range (Or.inl h); omega
+        · have := hd.pend_range (Or.inr h); omega
+      have e1 : patch2 (bs₁ ++ bs₂) tb (cs₁ ++ cs₂) tc ⟨m, opJumpFalsy, [n + 5]⟩ = ⟨m, opJumpFalsy, [n + 5]⟩ :=
+        patch2_id (fun h => by have := hr1 m (Or.inl h); omega)
+          (fun h => by have := hr1 m (Or.inr h); omega)
+      have e2 : patch2 (bs₁ ++ bs₂) tb (cs₁ ++ cs₂) tc ⟨n, opJump, [hi]⟩ = ⟨n, opJump, [hi]⟩ :=
+        patch2_id (fun h => by have := hr1 n (Or.inl h); omega)
+          (fun h => by have := hr1 n (Or.inr h); omega)
+      rw [P2_append, eC]
+      conv => lhs; rw [P2]
+      simp only [List.map_cons, List.map_append, e1, e2]
+      change C ++ _ :: (P2 (bs₁ ++ bs₂) tb (cs₁ ++ cs₂) tc Bd ++ _ :: P2 (bs₁ ++ bs₂) tb (cs₁ ++ cs₂) tc Be) = _
+      rw [eD, eE]
+    rw [e]
+    have hcd := hcd.mono (OT.mono (bs' := bs₁ ++ bs₂) (cs' := cs₁ ++ cs₂) append_ne_nil_left append_ne_nil_left)
+    have hcee := hcee.mono (OT.mono (bs' := bs₁ ++ bs₂) (cs' := cs₁ ++ cs₂) append_ne_nil_right append_ne_nil_right)
+    obtain ⟨H, hc, _⟩ := Core.ifelse (hcc.mono (fun _ _ h => h.elim)) hcd hcee (by omega)
+    exact ⟨H, hc⟩
+  · intro x hx hxe
+    rcases List.mem_append.mp hx with hm | hm
+    · have := mem_range hcc.lay hm; omega
+    · rcases List.mem_cons.mp hm with rfl | hm
+      · exact jmpf_facts.1
+      · rcases List.mem_append.mp hm with hm | hm
+        · have := mem_range hd.lay hm; omega
+        · rcases List.mem_cons.mp hm with rfl | hm
+          · exact jmp_facts.1
+          · exact he.nce x hm hxe
+
+/-- loop body (its `break`s go to the loop end `pe + 5`, its `continue`s to the post position `pb`)
+followed by the post statement -/
+theorem loop_body {lo pb pe : Nat} {Bd P : List Instr} {bs cs bsP csP : List Nat}
+    (hd : SBlk lo pb Bd bs cs) (hp : SBlk pb pe P bsP csP) (tb tc : Nat) :
+    ∃ H, Core lo pe 0 0 H (P2 bs (pe + 5) cs pb Bd ++ P2 bsP tb csP tc P)
+      (fun p k => (p = pe + 5 ∧ k = 0) ∨ OT bsP csP tb tc p k) := by
+  obtain ⟨Hd, hcd⟩ := hd.core (pe + 5) pb
+  obtain ⟨Hp, hcp⟩ := hp.core tb tc
+  have hcd' := hcd.close (T' := fun p k => (p = pe + 5 ∧ k = 0) ∨ OT bsP csP tb tc p k) (fun p k h => by
+    obtain ⟨h1, h2⟩ := h
+    rcases h1 with h1 | h1
+    · exact Or.inr (Or.inr (Or.inl ⟨h1.1, h2⟩))
+    · exact Or.inl ⟨h1.1, h2⟩)
+  have hcp' := hcp.mono (T' := fun p k => (p = pe + 5 ∧ k = 0) ∨ OT bsP csP tb tc p k) (fun _ _ h => Or.inr h)
+  refine ⟨_, hcd'.seq hcp' ?_⟩
+  intro x hx hxe hxo
+  obtain ⟨x0, hx0, rfl⟩ := mem_P2 hx
+  simp only [patch2_pos, patch2_size, patch2_op] at hxe hxo
+  exact absurd hxo (hd.nce x0 hx0 hxe)
+
+/-- `for cond { body } post`: `cond; JMPF end; body; post; JMP cond; end:`. -/
+theorem SBlk.loopC {lo m pb pe : Nat} {C Bd P : List Instr} {bs cs bsP csP : List Nat} (hC : EBlk lo m 0 C)
+    (hd : SBlk (m + 5) pb Bd bs cs) (hp : SBlk pb pe P bsP csP) :
+    SBlk lo (pe + 5)
+      (C ++ ⟨m, opJumpFalsy, [pe + 5]⟩ :: (P2 bs (pe + 5) cs pb Bd ++ P ++ [⟨pe, opJump, [lo]⟩])) bsP csP := by
+  obtain ⟨Hc, hcc, _, _⟩ := hC
+  have hce := hcc.hi_eq
+  have hde := hd.hi_eq
+  have hpe := hp.hi_eq
+  refine SBlk.mk' ?_ ?_ ?_
+  · intro p hp'
+    obtain ⟨i, hi', e1, e2⟩ := hp.pend p hp'
+    exact ⟨i, by simp [hi'], e1, e2⟩
+  · intro tb tc
+    obtain ⟨HR, hR⟩ := loop_body hd hp tb tc
+    have e : P2 bsP tb csP tc (C ++ ⟨m, opJumpFalsy, [pe + 5]⟩ :: (P2 bs (pe + 5) cs pb Bd ++ P ++ [⟨pe, opJump, [lo]⟩])) =
+        C ++ ⟨m, opJumpFalsy, [pe + 5]⟩ :: ((P2 bs (pe + 5) cs pb Bd ++ P2 bsP tb csP tc P) ++ [⟨pe, opJump, [lo]⟩]) := by
+      have eC : P2 bsP tb csP tc C = C := by
+        refine P2_id (fun i hi' => ?_)
+        have := mem_range hcc.lay hi'
+        exact ⟨fun h => by have := hp.pend_range (Or.inl h); omega,
+          fun h => by have := hp.pend_range (Or.inr h); omega⟩
+      have eD : P2 bsP tb csP tc (P2 bs (pe + 5) cs pb Bd) = P2 bs (pe + 5) cs pb Bd := by
+        refine P2_id (fun i hi' => ?_)
+        obtain ⟨i0, hi0, rfl⟩ := mem_P2 hi'
+        have := mem_range hd.lay hi0
+        simp only [patch2_pos]
+        exact ⟨fun h => by have := hp.pend_range (Or.inl h); omega,
+          fun h => by have := hp.pend_range (Or.inr h); omega⟩
+      have e1 : patch2 bsP tb csP tc ⟨m, opJumpFalsy, [pe + 5]⟩ = ⟨m, opJumpFalsy, [pe + 5]⟩ :=
+        patch2_id (fun h => by have := hp.pend_range (p := m) (Or.inl h); omega)
+          (fun h => by have := hp.pend_range (p := m) (Or.inr h); omega)
+      have e2 : patch2 bsP tb csP tc ⟨pe, opJump, [lo]⟩ = ⟨pe, opJump, [lo]⟩ :=
+        patch2_id (fun h => by have := hp.pend_range (p := pe) (Or.inl h); omega)
+          (fun h => by have := hp.pend_range (p := pe) (Or.inr h); omega)
+      rw [P2_append, eC]
+      conv => lhs; rw [P2]
+      simp only [List.map_cons, List.map_append, e1, e2, List.map_nil]
+      change C ++ _ :: (P2 bsP tb csP tc (P2 bs (pe + 5) cs pb Bd) ++ P2 bsP tb csP tc P ++ _) = _
+      rw [eD]
+    rw [e]
+    exact Core.loopC (hcc.mono (fun _ _ h => h.elim)) hR
+  · intro x hx hxe
+    rcases List.mem_append.mp hx with hm | hm
+    · have := mem_range hcc.lay hm; omega
+    · rcases List.mem_cons.mp hm with rfl | hm
+      · exact jmpf_facts.1
+      · rcases List.mem_append.mp hm with hm | hm
+        · rcases List.mem_append.mp hm with hm | hm
+          · obtain ⟨i0, hi0, rfl⟩ := mem_P2 hm
+            have := mem_range hd.lay hi0
+            simp only [patch2_pos, patch2_size] at hxe
+            omega
+          · have := mem_range hp.lay hm; omega
+        · simp only [List.mem_singleton] at hm; subst hm; exact jmp_facts.1
+
+/-- `for { body } post` without condition: `body; post; JMP body; end:`. -/
+theorem SBlk.loopN {lo pb pe : Nat} {Bd P : List Instr} {bs cs bsP csP : List Nat}
+    (hd : SBlk lo pb Bd bs cs) (hp : SBlk pb pe P bsP csP) :
+    SBlk lo (pe + 5) (P2 bs (pe + 5) cs pb Bd ++ P ++ [⟨pe, opJump, [lo]⟩]) bsP csP := by
+  have hde := hd.hi_eq
+  have hpe := hp.hi_eq
+  refine SBlk.mk' ?_ ?_ ?_
+  · intro p hp'
+    obtain ⟨i, hi', e1, e2⟩ := hp.pend p hp'
+    exact ⟨i, by simp [hi'], e1, e2⟩
+  · intro tb tc
+    obtain ⟨HR, hR⟩ := loop_body hd hp tb tc
+    have e : P2 bsP tb csP tc (P2 bs (pe + 5) cs pb Bd ++ P ++ [⟨pe, opJump, [lo]⟩]) =
+        (P2 bs (pe + 5) cs pb Bd ++ P2 bsP tb csP tc P) ++ [⟨pe, opJump, [lo]⟩] := by
+      have eD : P2 bsP tb csP tc (P2 bs (pe + 5) cs pb Bd) = P2 bs (pe + 5) cs pb Bd := by
+        refine P2_id (fun i hi' => ?_)
+        obtain ⟨i0, hi0, rfl⟩ := mem_P2 hi'
+        have := mem_range hd.lay hi0
+        simp only [patch2_pos]
+        exact ⟨fun h => by have := hp.pend_range (Or.inl h); omega,
+          fun h => by have := hp.pend_range (Or.inr h); omega⟩
+      have e2 : patch2 bsP tb csP tc ⟨pe, opJump, [lo]⟩ = ⟨pe, opJump, [lo]⟩ :=
+        patch2_id (fun h => by have := hp.pend_range (p := pe) (Or.inl h); omega)
+          (fun h => by have := hp.pend_range (p := pe) (Or.inr h); omega)
+      rw [P2_append, P2_append, eD]
+      simp only [P2, List.map_cons, List.map_nil, e2]
+    rw [e]
+    exact Core.loopN hR
+  · intro x hx hxe
+    rcases List.mem_append.mp hx with hm | hm
+    · rcases List.mem_append.mp hm with hm | hm
+      · obtain ⟨i0, hi0, rfl⟩ := mem_P2 hm
+        have := mem_range hd.lay hi0
+        simp only [patch2_pos, patch2_size] at hxe
+        omega
+      · have := mem_range hp.lay hm; omega
+    · simp only [List.mem_singleton] at hm; subst hm; exact jmp_facts.1
+
+/-- a statement block without pending jumps is closed -/
+theorem SBlk.closed {lo hi : Nat} {B : List Instr} (h : SBlk lo hi B [] []) : ∃ H, Core lo hi 0 0 H B NoT := by
+  obtain ⟨H, hc⟩ := h.core 0 0
+  rw [P2_nil] at hc
+  exact ⟨H, hc.mono (fun p k hh => by
+    obtain ⟨h1, _⟩ := hh
+    rcases h1 with ⟨_, h⟩ | ⟨_, h⟩ <;> exact absurd rfl h)⟩
+
+/-! ### whole functions -/
+
+/-- A whole function is consistent with `H`: every instruction's abstract successors are
+instruction starts of the function carrying the height `H` says. -/
+def Closed (H : Nat → Nat) (is : List Instr) : Prop :=
+  ∀ i ∈ is, ∃ l, succs i (H i.pos) = some l ∧ ∀ q ∈ l, (∃ j ∈ is, j.pos = q.1) ∧ H q.1 = q.2
 
 end Tengo.Proofs.C02Compile
